@@ -265,13 +265,30 @@ def gen_requested_version_gap(rnd, count):
         made += 1
 
 
+def gen_merge_histories(rnd, count):
+    """call histories around merged parts: a sequence whose same-mode parts are merged, then its first part alone, then the
+    sequence again, then the parts joined — every call must be judged on its own (nothing may be remembered between calls)"""
+    for _ in range(count):
+        m = rnd.choice([1, 2, 4])
+        unit = {1: 3, 2: 2, 4: 1}[m]
+        a = content_for(rnd, m, unit * rnd.randint(1, 4))
+        b = content_for(rnd, m, rnd.randint(1, 7))
+        if isinstance(a, bytes) != isinstance(b, bytes):
+            b = b.encode('latin1') if isinstance(a, bytes) else b.decode('latin1')
+        kw = dict(micro=rnd.choice([None, False]), mask=rnd.randrange(4))
+        if m == 4:
+            kw['mode'] = 'byte'
+        for content in ([a, b], a, [a, b], a + b, b, [a, b, a]):
+            yield Case(content, dict(kw), 'merge-history')
+
+
 def gen_eci_boundaries(rnd, versions):
     """byte-mode contents with eci=True in Latin-1 and in other encodings (12 bit ECI header), in this order
     and in reverse, at both sides of the capacity boundaries"""
     for v in versions:
         for e in levels_of(v):
             seq = []
-            for enc, extra in (('iso-8859-1', 0), ('utf-8', 12), ('latin1', 12), (None, 0), ('shift_jis', 12), ('utf-8', 12), ('iso-8859-1', 0)):
+            for enc, extra in (('iso-8859-1', 0), ('utf-8', 12), ('latin1', 12), (None, 0), ('shift_jis', 12), ('ISO-8859-1', 12), ('UTF-8', 12), ('Iso-8859-1', 12), ('utf-8', 12), ('iso-8859-1', 0)):
                 nmax = max_chars(v, e, 4, extra)
                 for n in (nmax, nmax + 1):
                     if n < 1:
@@ -320,12 +337,16 @@ def gen_random(rnd, count):
         else:
             content = rnd.choice(TEXTS)
             kw['mode'] = rnd.choice(['byte', 'byte', 'kanji', 'hanzi', 'numeric', 'alphanumeric'])
+        if isinstance(content, list) and rnd.random() < 0.35:
+            # integer parts, zero included (falsy values must not be dropped)
+            content.insert(rnd.randrange(len(content) + 1), rnd.choice([0, 0, 7, 10, 400]))
         if rnd.random() < 0.35:
             kw['encoding'] = rnd.choice(ENCODINGS)
         if rnd.random() < 0.3:
             kw['eci'] = True
         if rnd.random() < 0.4:
-            kw['error'] = rnd.choice(['L', 'M', 'Q', 'H', 'l', 'm', 'q', 'h', None])
+            # level as letter (any case), None, or as the integer constant of segno.consts (M is 0!)
+            kw['error'] = rnd.choice(['L', 'M', 'Q', 'H', 'l', 'm', 'q', 'h', None, 0, 0, 1, 3, 2])
         if rnd.random() < 0.4:
             kw['micro'] = rnd.choice([True, False, None])
         if rnd.random() < 0.3:
@@ -436,6 +457,70 @@ def sym_line(idx, case, want_c06=True):
     return ' '.join(f)
 
 
+def _threaded_child(args_list):
+    """runs in a forked child: the calls split over 8 threads with a tiny switch interval; all symbols are HELD until every
+    thread is done and only then copied (a symbol must not change after it was returned)"""
+    import sys, threading
+    sys.setswitchinterval(1e-6)
+    results = [None] * len(args_list)
+    held = [None] * len(args_list)
+
+    def work(k):
+        for i in range(k, len(args_list), 8):
+            content, kw = args_list[i]
+            try:
+                q = segno.make(content, **kw)
+                held[i] = q
+                results[i] = ('ok', tuple(bytes(r) for r in q.matrix))
+            except Exception as ex:  # noqa
+                results[i] = ('exc', exc_name(ex), str(ex)[:200])
+    ths = [threading.Thread(target=work, args=(k,)) for k in range(8)]
+    for t in ths:
+        t.start()
+    for t in ths:
+        t.join()
+    out = []
+    for i, r in enumerate(results):
+        if r[0] == 'ok':
+            out.append(('ok', r[1], tuple(bytes(x) for x in held[i].matrix)))
+        else:
+            out.append(r)
+    return out
+
+
+def concurrency_pass(cases, st, res, fields):
+    """the same calls again, concurrently and with the returned symbols held: every result must equal the result of the
+    sequential pass (and is therefore judged already); a difference is judged and reported as a violation of `fields`"""
+    import multiprocessing
+    sample = [c for c in cases if c.qr is not None and c.kw.get('mask') is None][:120] + [c for c in cases if c.qr is not None][:120]
+    if not sample:
+        return
+    # several symbols of the same size in a row (work areas shared between consecutive calls)
+    sample = sorted(sample, key=lambda c: len(c.qr.matrix))
+    args = [(c.content, c.kw) for c in sample]
+    with multiprocessing.get_context('fork').Pool(1) as pool:
+        outs = pool.apply(_threaded_child, (args,))
+    res.evaluations += len(args)
+    lines, info = [], []
+    for c, o in zip(sample, outs):
+        ref = tuple(bytes(r) for r in c.qr.matrix)
+        if o[0] != 'ok':
+            res.violations.append(dict(property_field=fields[0], verdict=f'concurrent-call-raised-{o[1]}-sequential-call-returned-a-symbol',
+                                       call=c.call() + '  [8 threads]', replay=c.replay(), known_id=None))
+            continue
+        for tag, m in (('at-return', o[1]), ('after-all-calls', o[2])):
+            if m != ref:
+                lines.append(f'sym id={len(lines)} m={matrix_str(m)}')
+                info.append((c, tag))
+    for (c, tag), o in zip(info, run_lines_parallel(JUDGE, lines)):
+        kv = parse_kv(o)
+        verdicts = {f: kv.get(f, 'missing') for f in ('c01', 'c02', 'c03', 'c13') if kv.get(f, '-') not in ('ok', '-')}
+        res.violations.append(dict(property_field=fields[0], verdict=f'symbol-differs-from-sequential-result-{tag}:{verdicts or "another-valid-symbol"}',
+                                   call=c.call() + '  [8 threads, symbols held]', replay=c.replay(), judge={k: kv[k] for k in kv if k not in ('cw', 'bytes')},
+                                   known_id=None))
+    res.count('concurrency-pass:calls', len(args))
+
+
 def sweep(cases, st, res, fields, want_c06=True, known_map=None, jobs=None, corr=True):
     """runs the cases; records correspondence diffs and judged violations for the verdict `fields`"""
     cases = list(cases)
@@ -488,4 +573,6 @@ def sweep(cases, st, res, fields, want_c06=True, known_map=None, jobs=None, corr
                 res.violations.append(dict(property_field=fld, verdict=verdict, call=c.call(), replay=c.replay(),
                                            judge={k: c.jkv[k] for k in c.jkv if k not in ('cw', 'bytes')},
                                            model_agrees=(c.model == c.impl) if c.model else None, known_id=kid))
+        if any(f in ('c01', 'c02', 'c03') for f in fields):
+            concurrency_pass(cases, st, res, fields)
     return cases
